@@ -12,7 +12,7 @@ import (
 func init() {
 	register(&Check{
 		ID: "C03", Level: "exploration", QuickSecs: 170, ThoroughSecs: 1500,
-		Rule:        "AST side: all reference ASTs over every expression kind (literal, i-literal, class with range/escape/Unicode class/^/i, any, rule reference, & ! ? * +, label, action, &{} !{} #{}, throw, recovery with 1-2 labels, nested sequences and choices) up to N nodes per rule (quick 4, thorough 5), second rule with display name. Spelling side: 15 independent dimensions (4 definition operators; 13 rule separators incl. ';' on the same or a later line, comments, CRLF, EOF; 12 token separators incl. newline and comments of several shapes (/***/, /* x **/, /**/, //); leading blanks/comments; 3 literal quotings; 4 escape forms in literals and in classes; operator spacing; full parenthesisation; 8 code block bodies with nested braces, braces in string/raw string/rune literals and comments; with/without initializer). Lexical families: EVERY code block body of <= 3 (thorough 4) items from 28 atoms (strings, raw strings, rune literals and comments holding braces, quotes, backslashes and comment openers; identifiers, blanks, newlines) and nested groups; EVERY literal of <= 2 (3) pieces over plain runes and all escape forms in the three quotings, with and without i; EVERY class text of <= 3 (4) pieces over plain runes, - ^, escapes (incl. escaped hyphen and caret) and Unicode classes, denotation = the grammar's own tokenisation. Deviation bounded: canonical spelling for all ASTs, every single deviation for ASTs up to N-1 nodes, every pair for ASTs up to 2 nodes. Oracle: the AST dump of the real front-end (kinds, values, flags, class contents, labels, code text, AND line:col:offset of every node = position of its first token) must equal the AST the text was printed from; printing the parsed AST canonically and re-parsing yields the same AST. Non-trivial = a case with at least one spelling deviation or at least 3 nodes.",
+		Rule:        "AST side: all reference ASTs over every expression kind (literal, i-literal, class with range/escape/Unicode class/^/i, any, rule reference, & ! ? * +, label, action, &{} !{} #{}, throw, recovery with 1-2 labels, nested sequences and choices) up to N nodes per rule (quick 4, thorough 5), second rule with display name. Spelling side: 15 independent dimensions (4 definition operators; 13 rule separators incl. ';' on the same or a later line, comments, CRLF, EOF; 12 token separators incl. newline and comments of several shapes (/***/, /* x **/, /**/, //); leading blanks/comments; 3 literal quotings; 4 escape forms in literals and in classes; operator spacing; full parenthesisation; 8 code block bodies with nested braces, braces in string/raw string/rune literals and comments; with/without initializer). Chains: 2 and 3 recovery clauses on one expression, actions and throws inside them, a recovery inside a choice, labels on prefixed and suffixed primaries (all deviations). Lexical families: EVERY code block body of <= 3 (thorough 4) items from 28 atoms (strings, raw strings, rune literals and comments holding braces, quotes, backslashes and comment openers; identifiers, blanks, newlines) and nested groups; EVERY literal of <= 2 (3) pieces over plain runes and all escape forms in the three quotings, with and without i; EVERY class text of <= 3 (4) pieces over plain runes, - ^, escapes (incl. escaped hyphen and caret) and Unicode classes, denotation = the grammar's own tokenisation. Deviation bounded: canonical spelling for all ASTs, every single deviation for ASTs up to N-1 nodes, every pair for ASTs up to 2 nodes. Oracle: the AST dump of the real front-end (kinds, values, flags, class contents, labels, code text, AND line:col:offset of every node = position of its first token) must equal the AST the text was printed from; printing the parsed AST canonically and re-parsing yields the same AST. Non-trivial = a case with at least one spelling deviation or at least 3 nodes.",
 		Assumptions: []string{"hook ast mode = ParseReader of the working tree", "position convention of C02 (line counts newlines, col counts runes since the last newline)"},
 		Run:         runC03,
 	})
@@ -314,6 +314,29 @@ func runC03(c *ShardCtx) {
 				}
 				g := &peg.Grammar{Rules: []*peg.Rule{{Name: "A", Expr: peg.Seq(lit, peg.Lit("z"))}, ruleB()}}
 				check(g, []deviation{{fmt.Sprintf("literal %s", lit.Src), func(o *peg.PrintOpts) {}}}, 3)
+			}
+		}
+	}
+	// chains the size bound of the main enumeration does not reach in the quick tier: two and three
+	// recovery clauses on one expression (left-nested by the grammar), choices of actions inside
+	// them, a label on a prefixed and suffixed primary
+	{
+		l := peg.Lit
+		extras := []*peg.Expr{
+			peg.Recover(peg.Recover(l("a"), l("b"), "l"), l("c"), "m"),
+			peg.Recover(peg.Recover(peg.Recover(peg.Ref("B"), l("b"), "l"), l("c"), "m"), peg.Any(), "l", "m"),
+			peg.Recover(peg.Recover(peg.Choice(peg.Action(7, l("a")), peg.Throw("l")), peg.Choice(l("b"), peg.Throw("m")), "l"), peg.Action(8, peg.Seq(l("c"), l("d"))), "m"),
+			peg.Choice(peg.Recover(l("a"), l("b"), "l"), l("z")), // needs parentheses: recovery binds weaker than choice
+			peg.Seq(peg.Label("x", peg.Not(peg.Star(l("a")))), peg.Label("y", peg.And(peg.Opt(peg.Cls(false, false, "a-c")))), peg.Plus(peg.Any())),
+		}
+		for _, body := range extras {
+			if c.Expired("chain family") {
+				return
+			}
+			mk := func() *peg.Grammar { return &peg.Grammar{Rules: []*peg.Rule{{Name: "A", Expr: body.Clone()}, ruleB()}} }
+			check(mk(), nil, 5)
+			for _, d := range devs {
+				check(mk(), []deviation{d}, 5)
 			}
 		}
 	}
